@@ -1,6 +1,7 @@
 package sim
 
 import (
+	"bytes"
 	"errors"
 	"fmt"
 	"math"
@@ -22,7 +23,7 @@ func init() {
 		RealParts:  []string{"Genome.Genesis, Organism.Phenotype / phenotype caching, Network graph adapters (Node, Nodes, From, To, Edge, WeightedEdge, Weight, HasEdgeFromTo, HasEdgeBetween), NodeCount / LinkCount / Complexity", "the epochs and mutators that create and modify the organisms"},
 		StubParts:  []string{"fitness assignment", "goroutine choice in parallel worlds"},
 		Assumes:    []string{"where several enabled genes join the same ordered node pair (recurrent and non-recurrent variant) the graph view may report either link's weight"},
-		ProbeNames: []string{"probe.organism_phenotype_checked", "probe.organism_had_cached_phenotype", "probe.baby_of_structural_mutation", "probe.genome.disabled_gene", "probe.genome.recurrent_gene", "probe.genome.self_loop", "probe.genome.modular", "probe.genome.disabled_module", "probe.multi_edge_pair"},
+		ProbeNames: []string{"probe.organism_phenotype_checked", "probe.reexpressed_after_mutation", "probe.organism_had_cached_phenotype", "probe.baby_of_structural_mutation", "probe.genome.disabled_gene", "probe.genome.recurrent_gene", "probe.genome.self_loop", "probe.genome.modular", "probe.genome.disabled_module", "probe.multi_edge_pair"},
 	})
 	Register(&Scenario{
 		Prop: "C12", Run: scenarioC12, QuickRuns: 30000, ThoroughRuns: 750000, Level: "exploration",
@@ -39,7 +40,7 @@ func init() {
 		StubParts:  []string{"fitness assignment"},
 		FaultKinds: []string{"fault.activation_cut_short", "fault.capped_depth_query"},
 		Assumes:    []string{"non-modular networks"},
-		ProbeNames: []string{"probe.net.recurrent_link", "probe.net.self_loop", "probe.net.cyclic", "probe.history.nonempty", "probe.fast_solver", "probe.standard_network"},
+		ProbeNames: []string{"probe.net.recurrent_link", "probe.net.self_loop", "probe.net.cyclic", "probe.history.nonempty", "probe.fast_solver", "probe.standard_network", "probe.modular_network"},
 	})
 	Register(&Scenario{
 		Prop: "C14", Run: scenarioC14, QuickRuns: 30000, ThoroughRuns: 750000, Level: "exploration", CrashIsViolation: true,
@@ -48,7 +49,7 @@ func init() {
 		StubParts:  []string{"fitness assignment"},
 		FaultKinds: []string{"fault.capped_depth_query_hit"},
 		Assumes:    []string{"<= 14 nodes per network keeps the library's own exponential search cheap", "non-modular networks with at least one hidden node"},
-		ProbeNames: []string{"probe.dag", "probe.cyclic", "probe.depth>=3", "probe.cap_hit_then_query", "probe.shared_subpath", "probe.disabled_module_genome"},
+		ProbeNames: []string{"probe.dag", "probe.cyclic", "probe.depth>=3", "probe.cap_hit_then_query", "probe.shared_subpath", "probe.disabled_module_genome", "probe.print_paths_then_query", "probe.direct_node_depth_query"},
 	})
 }
 
@@ -178,6 +179,52 @@ func scenarioC11(c *RunCtx) {
 			g := w.Pop.Organisms[t.Draw("genome.pick", len(w.Pop.Organisms))].Genotype
 			checkGenome(g, fmt.Sprintf("world [start=%s] genome of generation %d", w.KindName, e))
 		}
+	}
+	// re-expression: an organism that has a phenotype gets its genotype changed (as a caller's own mutation step would)
+	// and is asked to update its phenotype; what it then reports must express the changed genome
+	for k := t.Range("reexpress", 0, 3); k > 0 && len(w.Pop.Organisms) > 0; k-- {
+		oi := t.Draw("reexpress.org", len(w.Pop.Organisms))
+		o := w.Pop.Organisms[oi]
+		if len(o.Genotype.Genes) == 0 {
+			continue
+		}
+		c.LibSoft("Organism.Phenotype", func() { _, _ = o.Phenotype() })
+		kind := t.Draw("reexpress.kind", 4)
+		seedLib(int64(t.Draw("reexpress.libseed", 1<<31)))
+		c.LibSoft("mutation before re-expression", func() {
+			switch kind {
+			case 0:
+				gi := t.Draw("reexpress.gene", len(o.Genotype.Genes))
+				o.Genotype.Genes[gi].IsEnabled = !o.Genotype.Genes[gi].IsEnabled
+			case 1:
+				_, _ = genetics.VerifMutateLinkWeights(o.Genotype, w.Opts.WeightMutPower, 1.0, false)
+			case 2:
+				_, _ = genetics.VerifMutateAddNode(o.Genotype, w.Pop, w.Pop, w.Opts)
+			case 3:
+				_, _ = genetics.VerifMutateAddLink(o.Genotype, w.Pop, w.Gen, w.Opts)
+			}
+		})
+		var uerr error
+		c.Lib("Organism.UpdatePhenotype", func() { uerr = o.UpdatePhenotype() })
+		rec := Canon(o.Genotype)
+		if uerr != nil {
+			if len(rec.Genes) > 0 {
+				c.Fail("organism-phenotype-error", "UpdatePhenotype() of organism %d failed after a mutation of its genotype: %v\n%s", oi, uerr, rec.Pretty())
+			}
+			continue
+		}
+		var net *network.Network
+		var err error
+		c.Lib("Organism.Phenotype", func() { net, err = o.Phenotype() })
+		if err != nil {
+			c.Fail("organism-phenotype-error", "Phenotype() of organism %d failed after UpdatePhenotype(): %v\n%s", oi, err, rec.Pretty())
+		}
+		if cl, d := RefExpress(rec).CompareNetwork(net); cl != "" {
+			c.Fail("organism-phenotype:"+cl, "after its genotype was changed (%s) and UpdatePhenotype() was called, the phenotype of organism %d does not express its current genome: %s\n%s",
+				[]string{"a gene's enabled flag flipped", "link weights mutated", "add-node", "add-link"}[kind], oi, d, rec.Pretty())
+		}
+		c.Count("probe.reexpressed_after_mutation")
+		c.Steps++
 	}
 	// modular genomes
 	switch t.Pick("modular", 2, 1, 2) {
@@ -519,6 +566,8 @@ const (
 	nopRelax
 	nopDepth
 	nopDepthCap
+	nopPrintPaths
+	nopNodeDepth
 	numNetOps
 )
 
@@ -540,6 +589,10 @@ func (o netOp) String() string {
 		return "MaxActivationDepth()"
 	case nopDepthCap:
 		return fmt.Sprintf("MaxActivationDepthWithCap(%d)", o.cap)
+	case nopPrintPaths:
+		return "PrintAllActivationDepthPaths(w)"
+	case nopNodeDepth:
+		return fmt.Sprintf("Outputs[%d %% n].Depth(0, %d)", o.k, o.cap)
 	}
 	return "?"
 }
@@ -547,7 +600,7 @@ func (o netOp) String() string {
 func drawNetOps(t *Tape, n, nin int, label string) []netOp {
 	var ops []netOp
 	for i := 0; i < n; i++ {
-		o := netOp{kind: t.Pick(label+".op", 4, 2, 2, 3, 2, 1, 1, 2)}
+		o := netOp{kind: t.Pick(label+".op", 4, 2, 2, 3, 2, 1, 1, 2, 1, 1)}
 		switch o.kind {
 		case nopLoad:
 			sub := t.Sub(label + ".vec")
@@ -559,6 +612,9 @@ func drawNetOps(t *Tape, n, nin int, label string) []netOp {
 			o.k = 1 + t.Draw(label+".k", 4)
 		case nopDepthCap:
 			o.cap = 1 + t.Draw(label+".cap", 4)
+		case nopNodeDepth:
+			o.k = t.Draw(label+".out", 4)
+			o.cap = t.Draw(label+".ncap", 4) // 0 = no cap
 		}
 		ops = append(ops, o)
 	}
@@ -620,6 +676,14 @@ func applyStd(net *network.Network, o netOp) obs {
 		r.num, err = net.MaxActivationDepth()
 	case nopDepthCap:
 		r.num, err = net.MaxActivationDepthWithCap(o.cap)
+	case nopPrintPaths:
+		var buf bytes.Buffer
+		err = network.PrintAllActivationDepthPaths(net, &buf)
+		r.num = buf.Len()
+	case nopNodeDepth:
+		if len(net.Outputs) > 0 {
+			r.num, err = net.Outputs[o.k%len(net.Outputs)].Depth(0, o.cap)
+		}
 	}
 	r.err = errStr(err)
 	r.outs = bits(net.ReadOutputs())
@@ -642,7 +706,7 @@ func applyFast(s network.Solver, o netOp) obs {
 		r.res, err = s.RecursiveSteps()
 	case nopRelax:
 		r.res, err = s.Relax(o.k, 1e-6)
-	case nopDepth, nopDepthCap:
+	case nopDepth, nopDepthCap, nopPrintPaths, nopNodeDepth:
 		r.res, err = s.Relax(1, 0)
 	}
 	r.err = errStr(err)
@@ -670,6 +734,10 @@ func scenarioC13(c *RunCtx) {
 	c.Sample = w.Describe()
 	c.Op("world: %s", w.Describe())
 	genomes = append(genomes, BuildGenome(t, GenomeSpec{AllowDisabled: true, MaxHidden: 3, ActSwarm: true, FeedForwardOnly: !recurrent}))
+	if t.Chance("modularNet", 1, 4) {
+		genomes = append(genomes, BuildModularGenome(t))
+		c.Count("probe.modular_network")
+	}
 	for gi, g := range genomes {
 		rec := Canon(g)
 		if len(rec.Nodes) > 14 {
@@ -901,8 +969,39 @@ func scenarioC14(c *RunCtx) {
 		var trace string
 		nin := ref.NumPlainInputs()
 		for q := 0; q < nq; q++ {
-			kind := t.Pick("query", 3, 4, 1)
+			kind := t.Pick("query", 3, 4, 1, 1, 1)
 			switch kind {
+			case 3:
+				// the path printer walks the same marks
+				var buf bytes.Buffer
+				c.LibSoft("PrintAllActivationDepthPaths", func() { _ = network.PrintAllActivationDepthPaths(net, &buf) })
+				trace += " PrintAllActivationDepthPaths(w);"
+				c.Count("probe.print_paths_then_query")
+			case 4:
+				// a depth query put to an output node directly (the method is exported), with or without a cap; the same
+				// query on the fresh network must agree, and it must leave no marks either
+				if len(net.Outputs) > 0 && len(freshNet.Outputs) == len(net.Outputs) {
+					oi := t.Draw("node.out", len(net.Outputs))
+					cp := t.Draw("node.cap", base+2) // 0 = no cap
+					var got, want int
+					var gerr, werr error
+					c.Lib("NNode.Depth", func() {
+						got, gerr = net.Outputs[oi].Depth(0, cp)
+						if brandNew, err := GenesisCopy(g); err == nil && len(brandNew.Outputs) == len(net.Outputs) {
+							want, werr = brandNew.Outputs[oi].Depth(0, cp)
+						} else {
+							want, werr = got, gerr
+						}
+					})
+					trace += fmt.Sprintf(" Outputs[%d].Depth(0,%d);", oi, cp)
+					if got != want || (gerr == nil) != (werr == nil) {
+						c.Fail("query-leaves-marks", "after the queries [%s] output node %d answers Depth(0,%d) = (%d, %v); a newly built network answers (%d, %v)\n%s", trace, net.Outputs[oi].Id, cp, got, gerr, want, werr, rec.Pretty())
+					}
+					if gerr != nil {
+						hitCap = true
+					}
+					c.Count("probe.direct_node_depth_query")
+				}
 			case 0:
 				var got int
 				var gerr error
